@@ -158,7 +158,7 @@ class ObjMon:
         if ba < 0:
             self.rig.violation("lifecycle", "bufferedamount-negative", f"bufferedAmount {ba} < 0 ({where})",
                                chan=self.chan.uid if self.chan else None, ep=self.ep.name)
-        if st == "open" and not self.rig.relay and not self.ep.in_send:
+        if st == "open" and not self.rig.relay and not self.ep.in_send and not self.ep.dead:
             self.rig.counters["bufferedamount_shadow_checks"] += 1
             if ba != self.shadow:
                 self.rig.violation("lifecycle", "bufferedamount-mismatch",
@@ -249,6 +249,8 @@ class SctpRig:
         self.init_after_connected = {"A": 0, "B": 0}
         self.cumtsn_regress = {"A": 0, "B": 0}
         self.reconfig_dropped = 0
+        self.reconfig_req = {}
+        self.reconfig_lost_streams = set()
         self.last_delivery_step = 0
 
         for ep in (self.A, self.B):
@@ -359,6 +361,9 @@ class SctpRig:
                 except Exception:
                     return
                 for c in chunks:
+                    if isinstance(c, st.ReconfigChunk):
+                        self._tap_reconfig(direction, c, dropped=not delays)
+                        continue
                     if isinstance(c, st.DataChunk):
                         seen = self._seen_tsn[direction]
                         seen[c.tsn] = seen.get(c.tsn, 0) + 1
@@ -381,6 +386,15 @@ class SctpRig:
             else:
                 if "init" in kind and dst.connected_at is not None:
                     self.init_after_connected[dst.name] += 1
+                if "reconfig" in kind and str(getattr(dst.sctp, "_association_state", "")).endswith("ESTABLISHED") is False:
+                    # delivered, but the receiver is not (or no longer) established and ignores it: same as lost
+                    try:
+                        for c in st.parse_packet(data)[3]:
+                            if isinstance(c, st.ReconfigChunk):
+                                self._tap_reconfig(direction, c, dropped=True)
+                                self.counters["reconfig_ignored_by_state"] += 1
+                    except Exception:
+                        pass
                 if "data" in kind:
                     if n < self._max_data_ord.get(direction, -1):
                         ws["rx_data_out_of_order"] += 1
@@ -388,6 +402,26 @@ class SctpRig:
                         self._max_data_ord[direction] = n
 
         return tap
+
+    def _tap_reconfig(self, direction, chunk, dropped):
+        """Which stream ids had a reset request, or the response to it, dropped by the link (D16 classifier)."""
+        st = self.st
+        back = "B>A" if direction == "A>B" else "A>B"
+        try:
+            for ptype, pdata in chunk.params:
+                cls = st.RECONFIG_PARAM_TYPES.get(ptype)
+                if cls is None:
+                    continue
+                param = cls.parse(pdata)
+                if isinstance(param, st.StreamResetOutgoingParam):
+                    self.reconfig_req[(direction, param.request_sequence)] = list(param.streams)
+                    self.counters["reset_requests_on_wire"] += 1
+                    if dropped:
+                        self.reconfig_lost_streams.update(param.streams)
+                elif isinstance(param, st.StreamResetResponseParam) and dropped:
+                    self.reconfig_lost_streams.update(self.reconfig_req.get((back, param.response_sequence), []))
+        except Exception:
+            pass
 
     async def _pump(self, ep):
         while True:
@@ -403,8 +437,9 @@ class SctpRig:
             except Exception as exc:
                 # In production RTCDtlsTransport.__run re-raises and closes the DTLS transport.
                 where = innermost_repo_frame(exc)
-                self.violation("exception", f"{type(exc).__name__}@{where}",
-                               f"{type(exc).__name__} escaped _handle_data at {where}: {exc!r}"[:300], ep=ep.name)
+                detail = exception_detail(exc)
+                self.violation("exception", f"{type(exc).__name__}@{where}{detail}",
+                               f"{type(exc).__name__} escaped _handle_data at {where}{detail}: {exc!r}"[:300], ep=ep.name)
                 ep.dead = True
                 ep.dtls.state = "closed"
             finally:
@@ -691,6 +726,10 @@ class SctpRig:
         self.log("close()", ep.name, chan.uid)
         chan.close_called = True
         chan.closed_by = getattr(chan, "closed_by", set()) | {ep.name}
+        if not hasattr(chan, "close_ctx"):
+            chan.close_ctx = []
+        chan.close_ctx.append({"ep": ep.name, "assoc": str(getattr(ep.sctp, "_association_state", "?")).split(".")[-1],
+                               "sctp_state": ep.sctp.state, "id": obj.id, "ready": obj.readyState, "t": self.now()})
         try:
             obj.close()
         except Exception as exc:
@@ -709,6 +748,8 @@ class SctpRig:
 
     def run_until(self, t):
         r = self.loop.run_until_idle(self.t0 + t)
+        if r == "idle" and self.loop.time() < self.t0 + t:
+            self.loop._vnow = self.t0 + t  # nothing can happen in between: let (virtual) time pass
         self.sample_all("phase")
         return r
 
@@ -719,6 +760,8 @@ class SctpRig:
             r = self.loop.run_until_idle(min(limit, self.loop.time() + step))
             self.sample_all("drain")
             if r == "idle":
+                if self.loop.time() < self.heal_at:
+                    self.loop._vnow = self.heal_at  # quiescent before the heal time: whatever follows is post-heal
                 return "idle"
             # livelock criterion by counting (DESIGN C02 (d))
             for d in ("A>B", "B>A"):
@@ -873,3 +916,20 @@ def innermost_repo_frame(exc):
             where = f"{fn.rsplit('/', 1)[-1]}:{tb.tb_frame.f_code.co_name}"
         tb = tb.tb_next
     return where
+
+
+def exception_detail(exc):
+    """Mechanism suffix for the crash classifier: a DCEP OPEN hitting a stream id which is still registered."""
+    tb = exc.__traceback__
+    while tb is not None:
+        f = tb.tb_frame
+        if f.f_code.co_name == "_data_channel_receive" and isinstance(exc, AssertionError):
+            try:
+                sid = f.f_locals.get("stream_id")
+                chan = f.f_locals["self"]._data_channels.get(sid)
+                if chan is not None:
+                    return f"[open-on-{chan.readyState}-id]"
+            except Exception:
+                return ""
+        tb = tb.tb_next
+    return ""
